@@ -135,3 +135,76 @@ def spec_fn(fn=None, **kw):
     if fn is None:
         return lambda f: SpecFn(f, **kw)
     return SpecFn(fn)
+
+
+class HeapPred:
+    """Opaque predicate over heap state (representation invariants). An application is an uninterpreted predicate of its
+    object arguments AND of the current value of every heap array listed in `reads` (so any two applications in states that
+    agree on those arrays are equal by congruence, with no quantifier reasoning). The definition is only unfolded in
+    contracts that list the predicate under `reveal`; when unfolded, the executor checks that the body reads no heap array
+    outside `reads` (otherwise the frame argument would be unsound)."""
+
+    def __init__(self, fn, reads):
+        self.fn = fn
+        self.__name__ = fn.__name__
+        self.reads = list(reads)
+        self.uf = None
+
+    def __call__(self, *args, **kw):
+        return self.fn(*args, **kw)
+
+    def keys(self, eng):
+        out = []
+        for r in self.reads:
+            if r.startswith("map:"):
+                from .values import MapCls
+                tag = r[4:]
+                mcls = next((m for m in MapCls._cache.values() if m.tag == tag), None)
+                if mcls is None:
+                    raise Unsupported("HeapPred reads unknown map class %s" % tag)
+                for hk, s_ in eng._map_arrays(mcls):
+                    out.append((hk, z3.ArraySort(z3.IntSort(), s_)))
+                continue
+            ft = eng.field_type(r)
+            if isinstance(ft, TList):
+                out.append((r + "#len", z3.IntSort()))
+                for k, s_ in eng.leaf_sorts(ft.elem):
+                    out.append(("%s#%s" % (r, k), z3.ArraySort(z3.IntSort(), s_)))
+            else:
+                for k, s_ in eng.leaf_sorts(ft):
+                    out.append(("%s#%s" % (r, k), s_))
+        return out
+
+    def apply(self, eng, args, kwargs):
+        ts = [term_of(eng, a) for a in args]
+        keys = self.keys(eng)
+        arrs = [eng.heap_arr(k, s_) for k, s_ in keys]
+        if self.uf is None:
+            self.uf = z3.Function("inv$" + self.__name__, *([t.sort() for t in ts] + [a.sort() for a in arrs] + [z3.BoolSort()]))
+        app = self.uf(*(ts + arrs))
+        if self.__name__ in getattr(eng.contract, "reveal", ()):
+            mkey = ("heappred", self.__name__, tuple(t.get_id() for t in ts + arrs))
+            if mkey not in eng.memo:
+                eng.memo[mkey] = app
+                before = set(eng.heap.keys()) | set(eng.heap_init.keys())
+                tracked = []
+                orig = eng.heap_arr
+
+                def tracking(key, sort, _orig=orig):
+                    tracked.append(key)
+                    return _orig(key, sort)
+                eng.heap_arr = tracking
+                try:
+                    body = eng.call_function(self.fn, list(args), {}, force_inline=True)
+                finally:
+                    del eng.heap_arr
+                allowed = {k for k, _ in keys}
+                bad = sorted(set(tracked) - allowed)
+                if bad:
+                    raise Unsupported("heap predicate %s reads %s which is not in its declared read set" % (self.__name__, bad))
+                eng.assume(app == eng.truth(body))
+        return VBool(app)
+
+
+def heap_pred(reads):
+    return lambda fn: HeapPred(fn, reads)
